@@ -556,7 +556,7 @@ class ListItem(BlockToken):
     """
     repr_attributes = BlockToken.repr_attributes + ("leader", "indentation", "prepend", "loose")
     pattern = re.compile(r'( {0,3})(\d{1,9}[.)]|[+\-*])($|\s+)')
-    continuation_pattern = re.compile(r'([ \t]*)(\S.*\n|\n)')
+    continuation_pattern = re.compile(r'([ \t]*)([^ \t\n].*\n|\n)')
 
     def __init__(self, parse_buffer, indentation, prepend, leader, line_number=None):
         self.line_number = line_number
